@@ -434,7 +434,7 @@ def run_schema_extends(ctx, i, dirpath):
     # declare key type / datatype on the bases; the extending schema
     # inherits them (or overrides explicitly)
     mode = rng.choice(["inherit", "inherit", "explicit", "conflict",
-                       "chain", "chain"])
+                       "chain", "chain", "own-dt", "own-kt"])
     if mode == "chain" and k < 2:
         k = 2
         parts = split_schema(rng, model, k)
@@ -445,6 +445,10 @@ def run_schema_extends(ctx, i, dirpath):
         part = parts[bi]
         bm = {"keytype": top_kt, "datatype": top_dt, "handler": None,
               "types": part["types"], "children": part["children"]}
+        if mode == "own-dt":
+            # every base states a datatype of its own; the extending
+            # schema states another one (and no key type): its own wins
+            bm["datatype"] = "wrap2" if top_dt != "wrap2" else "wrap"
         if mode == "chain" and bi > 0:
             # only the root base declares key type and datatype; every
             # base after it extends the previous one and inherits them
@@ -473,8 +477,8 @@ def run_schema_extends(ctx, i, dirpath):
             f.write(family.render_xml(bm))
         names.append(fn)
     own = parts[k]
-    om = {"keytype": top_kt if mode == "explicit" else None,
-          "datatype": top_dt if mode == "explicit" else None,
+    om = {"keytype": top_kt if mode in ("explicit", "own-kt") else None,
+          "datatype": top_dt if mode in ("explicit", "own-dt") else None,
           "handler": None, "types": own["types"],
           "children": own["children"],
           # ZConfig reads the listed bases last-first
@@ -484,8 +488,10 @@ def run_schema_extends(ctx, i, dirpath):
           rng.choice([" ", " ", "  ", "\n      ", "\t"]).join(
               reversed(names) if mode != "chain" else names[-1:]) +
           rng.choice(["", "", " ", "\n  "])}
-    if mode == "explicit":
+    if mode in ("explicit", "own-kt"):
         om["extra_attrs"] = {"keytype": top_kt}
+    if mode == "own-dt" and not top_dt:
+        om["raw_datatype"] = "null"
     main = os.path.join(dirpath, "main.xml")
     with open(main, "w") as f:
         f.write(family.render_xml(om))
@@ -779,6 +785,80 @@ def run_selfschema(ctx, i, space):
                     % (order, tname, got[True], got[False]),
                     vsig="selfschema|%s|%s" % (order, got[True][0][0]))
 
+# ---------------------------------------------------------------------------
+# (f) relative package names: <import package=".x"/> under prefix P means
+# package P.x - and nothing else: when P.x cannot be imported the import is
+# refused even if a top-level package x with a component exists.
+
+def _rel_component(tname, default):
+    return ("<component><sectiontype name='%s'><key name='alpha' "
+            "datatype='integer' default='%s'/></sectiontype></component>"
+            % (tname, default))
+
+
+def run_relpkg(ctx, i, space):
+    import ZConfig
+    res = ctx.res
+    rng = ctx.rng("relpkg", i)
+    P = space.new_name("rp")
+    X = space.new_name("rx")
+    tname = "rx-%d" % i
+    exists = rng.random() < 0.6
+    decoy = rng.random() < 0.7
+    level = rng.choice(["schema", "component"])
+    space.write(P, {})
+    if exists:
+        space.write(P + "." + X, {"component.xml": _rel_component(tname, 42)})
+    if decoy:
+        # a top-level package of the same name with another component
+        space.write(X, {"component.xml": _rel_component(tname, 999)})
+    slot = "<multisection type='%s' name='*' attribute='rx'/>" % tname
+    if level == "schema":
+        x1 = "<schema prefix='%s'><import package='.%s'/>%s</schema>" % (
+            P, X, slot)
+        x2 = "<schema><import package='%s.%s'/>%s</schema>" % (P, X, slot)
+    else:
+        space.write(P, {
+            "component.xml": "<component prefix='%s'><import package='.%s'/>"
+            "</component>" % (P, X),
+            "expanded.xml": "<component><import package='%s.%s'/>"
+            "</component>" % (P, X)})
+        x1 = "<schema><import package='%s'/>%s</schema>" % (P, slot)
+        x2 = "<schema><import package='%s' file='expanded.xml'/>%s</schema>" \
+            % (P, slot)
+    text = "<%s a>\n</%s>\n<%s b>\n alpha 7\n</%s>\n" % ((tname,) * 4)
+    got = []
+    for x in (x1, x2):
+        sch, err = load_schema_text(x)
+        if sch is None:
+            got.append(("refused", err[0]))
+            continue
+        try:
+            conf, _ = ZConfig.loadConfigFile(sch, io.StringIO(text))
+            got.append(("ok", [v.alpha for v in conf.rx]))
+        except ZConfig.ConfigurationError as e:
+            got.append(("reject", type(e).__name__))
+        except Exception as e:  # noqa
+            got.append(("internal", type(e).__name__, str(e)[:100]))
+    res.evaluations += 1
+    res.count("relative_package_imports")
+    res.sig("relpkg|%s|%s|%s" % (level, exists, decoy))
+    want = ("ok", [42, 7]) if exists else None
+    bad = got[0][0] != got[1][0] or (exists and got[0] != want) or \
+        (exists and got[1] != want) or \
+        (not exists and got[0][0] != "refused")
+    if bad:
+        res.violate("relative-package-name-differs-from-written-out-name",
+                    {"family": "relpkg", "i": i, "level": level,
+                     "exists": exists, "decoy": decoy},
+                    {"expanded": list(got[1]), "want": want and list(want)},
+                    {"composed": list(got[0])},
+                    detail="level=%s P.x exists=%s top-level x=%s "
+                    "composed=%r expanded=%r" % (level, exists, decoy,
+                                                 got[0], got[1]),
+                    vsig="relpkg|%s|%s|%s|%s" % (level, exists, decoy,
+                                                 got[0][0]))
+
 
 def run_shard(ctx):
     n = N[ctx.tier]
@@ -801,6 +881,8 @@ def run_shard(ctx):
             run_components(ctx, i, space)
             if i % 3 == 0:
                 run_selfschema(ctx, i, plain)
+            if i % 2 == 0:
+                run_relpkg(ctx, i, plain)
     finally:
         ctx.res.hook("packages_with_two_path_entries",
                      getattr(space, "split_packages", 0))
@@ -813,6 +895,11 @@ def replay(ctx, case):
     space = packages.PackageSpace(os.path.join(ctx.tmp, "pkgs"), "c11r")
     space.split_every = 1       # harmless for correct code
     try:
+        if fam == "relpkg":
+            space.split_every = 0
+            for i in range(case.get("i", 0), case.get("i", 0) + 40):
+                run_relpkg(ctx, i, space)
+            return
         if fam == "selfschema":
             for i in range(8):
                 run_selfschema(ctx, i, plain)
